@@ -84,6 +84,52 @@ class C03(FprCheck):
                 b = MG.run_impl(m2, m2.GetConformer(newpos), o, qs)
                 if a != b:
                     return {"key": "conformer-order-changes-fingerprint", "what": "conformer %d gives a different fingerprint when stored at position %d" % (j, newpos)}
+            # the package's own multi-conformer route (one fingerprinter over the conformers in storage order), every level up
+            # to one most conformers converge before; four conformers, in the original and in the shuffled relative order
+            from e3fp.fingerprint.generate import fprints_dict_from_mol
+            from harness.fpgen import dump_fp
+            L = 14
+            kw = dict(bits=o["bits"], level=L, radius_multiplier=max(o["radius_multiplier"], 1.718), first=-1, counts=o["counts"], stereo=o["stereo"],
+                      include_disconnected=o["include_disconnected"], rdkit_invariants=o["rdkit_invariants"],
+                      exclude_floating=o["exclude_floating"], remove_duplicate_substructs=True, all_iters=True)
+            # prefer conformers that converge at different levels (scan of up to 12, one fresh fingerprinter each)
+            import random as _r
+            rr = _r.Random(case["shuffle"] + 1)
+            kw["radius_multiplier"] = rr.choice([1.3, 1.5, 1.718, 1.718, 2.0, 2.3])
+            scan = {}
+            for j in order[:12]:
+                f = MG.make_fprinter(dict(o, level=L, radius_multiplier=kw["radius_multiplier"], remove_duplicate_substructs=True))
+                f.run(mol.GetConformer(j), mol)
+                scan.setdefault(f.current_level, []).append(j)
+            by_level = sorted(scan.items(), reverse=True)
+            chosen = [js[0] for _, js in by_level] + [j for _, js in by_level for j in js[1:]]
+            self.count("conformer-order:distinct-convergence-levels=%d" % len(scan))
+            order = [j for j in order if j in chosen[:4]]
+            rr.shuffle(order)
+            pick = sorted(order)
+            if order == pick:
+                order = list(reversed(order))
+            def sub(ids):
+                m = Chem.Mol(mol)
+                m.RemoveAllConformers()
+                for j in ids:
+                    m.AddConformer(Chem.Conformer(mol.GetConformer(j)), assignId=True)
+                return m
+            mol, m2 = sub(pick), sub(order)
+            order = [pick.index(j) for j in order]
+
+            def strip(d):
+                d = dict(d)
+                d.pop("name", None)
+                return d
+            da, db = fprints_dict_from_mol(mol, **kw), fprints_dict_from_mol(m2, **kw)
+            if sorted(da) != sorted(db):
+                return {"key": "conformer-order-changes-levels", "what": "levels %s vs %s" % (sorted(da), sorted(db))}
+            for lvl in sorted(da):
+                for newpos, j in enumerate(order):
+                    if strip(dump_fp(da[lvl][j])) != strip(dump_fp(db[lvl][newpos])):
+                        return {"key": "conformer-order-changes-fingerprint:multi-conformer-route",
+                                "what": "fprints_dict_from_mol(all_iters): level %d fingerprint of conformer %d differs when the conformers are stored in the order %s" % (lvl, j, order[:12])}
             return None
         if not case.get("perm"):
             return None
